@@ -295,6 +295,7 @@ func TestVerifC15Cmd(t *testing.T) {
 	// replay of a recorded violation: only that pair of hosts / ticker script / lease configuration
 	var replayPair *pair
 	replayTicker, replayYaml := "", ""
+	var replaySrc []int
 	if p := os.Getenv("VERIF_REPLAY"); p != "" {
 		var rec struct {
 			Replay map[string]interface{} `json:"replay"`
@@ -310,15 +311,20 @@ func TestVerifC15Cmd(t *testing.T) {
 			if op, ok := rec.Replay["ticker"].(string); ok {
 				replayTicker = op
 			}
+			if v, ok := rec.Replay["contendsrc"].([]interface{}); ok && len(v) == 2 {
+				a, _ := v[0].(float64)
+				b, _ := v[1].(float64)
+				replaySrc = []int{int(a), int(b)}
+			}
 			if y, ok := rec.Replay["cluster_yaml"].(string); ok {
 				replayYaml = y
 			}
-			if replayPair == nil && replayTicker == "" && replayYaml == "" {
+			if replayPair == nil && replayTicker == "" && replayYaml == "" && replaySrc == nil {
 				return // a replay for another C15 harness
 			}
 		}
 	}
-	replaying := replayPair != nil || replayTicker != "" || replayYaml != ""
+	replaying := replayPair != nil || replayTicker != "" || replayYaml != "" || replaySrc != nil
 	if replaying {
 		hostsA, hostsB = nil, nil
 	}
@@ -383,6 +389,66 @@ func TestVerifC15Cmd(t *testing.T) {
 			}
 			if ra.key != rb.key {
 				s.Count("contend_keys_differ") // same source double => same key; recorded, not a C15 clause
+			}
+		}
+	}
+
+	// ---- OBSERVATION (no clause of C15): one source, spelled differently in two hosts' configurations
+	// (input.redis.addresses). The election key is built from the source's ADDRESS STRING as each instance knows it
+	// (runCluster: shard.Master.Address), so such hosts contend on two different keys = through two different leases, and
+	// both are told leader. A configuration divergence outside the property's quantifier (same class as two hosts both
+	// configured localhost:18001); counted (contendsrc_*), stated in the assumptions, never reported. Two leaders under ONE
+	// spelling are the property's first sentence and are reported (two-hosts-told-leader).
+	if !replaying || replaySrc != nil {
+		_, port, _ := strings.Cut(st.Addr(), ":")
+		spell := []string{"127.0.0.1:" + port, "localhost:" + port, "[::ffff:127.0.0.1]:" + port}
+		type sp struct{ a, b string }
+		var sps []sp
+		if replaySrc != nil {
+			sps = append(sps, sp{spell[replaySrc[0]], spell[replaySrc[1]]})
+		} else {
+			for i := range spell {
+				for j := range spell {
+					sps = append(sps, sp{spell[i], spell[j]})
+				}
+			}
+		}
+		ha, hb := vfC15Host{listen: "10.0.0.1:18001"}, vfC15Host{listen: "10.0.0.2:18001"}
+		for _, p := range sps {
+			st.VerifReset(1000)
+			ra := vfC15RunHost(t, st, dir, ha.yaml(p.a, true, ""))
+			rb := vfC15RunHost(t, st, dir, hb.yaml(p.b, true, ""))
+			idxOf := func(x string) int {
+				for i, y := range spell {
+					if x == y {
+						return i
+					}
+				}
+				return -1
+			}
+			// the port of the double changes from run to run: the replay names the spellings, not the strings
+			replay := map[string]interface{}{"contendsrc": []int{idxOf(p.a), idxOf(p.b)},
+				"sourceA": strings.Replace(p.a, port, "<port>", 1), "sourceB": strings.Replace(p.b, port, "<port>", 1),
+				"same_spelling": p.a == p.b}
+			s.Op(fmt.Sprintf("contendsrc %d %d %d", idx, idxOf(p.a), idxOf(p.b)))
+			idx++
+			switch {
+			case !ra.accepted || !rb.accepted:
+				s.Count("contendsrc_config_refused")
+			case !ra.ran || !rb.ran:
+				s.Count("contendsrc_run_did_not_campaign")
+			default:
+				s.Count("contendsrc_both_campaigned")
+				if ra.key != rb.key {
+					s.Count("contendsrc_keys_differ")
+				}
+				if ra.leader && rb.leader && p.a != p.b {
+					s.Count("contendsrc_observed_two_leaders_on_two_keys_spellings_differ")
+				}
+				if ra.leader && rb.leader && p.a == p.b {
+					s.Violate("two-hosts-told-leader", fmt.Sprintf("two hosts of one group replicate ONE source, written %q in one configuration and %q in the other; both were told leader at the same instant (election keys %q / %q)",
+						replay["sourceA"], replay["sourceB"], strings.Replace(ra.key, port, "<port>", 1), strings.Replace(rb.key, port, "<port>", 1)), replay)
+				}
 			}
 		}
 	}
